@@ -247,12 +247,16 @@ class LinSolve(Module):
         self.ishermitian = hermitian
         self.issymmetric = symmetric
         self.solver = solver
+        self._user_hermitian = hermitian
+        self._user_solver = solver
+        self._mat_class = None  # Matrix class for which the current solver was chosen
         self.u = None  # Solution storage
 
     def _response(self, mat, rhs):
         # Do some detections on the matrix type
         self.issparse = matrix_is_sparse(mat)  # Check if it is a sparse matrix
         self.iscomplex = matrix_is_complex(mat)  # Check if it is a complex-valued matrix
+        self.ishermitian = self._user_hermitian  # Unless given by the user, detect again for every matrix
         if not self.iscomplex and self.issymmetric is not None:
             self.ishermitian = self.issymmetric
         if self.ishermitian is None:
@@ -262,7 +266,11 @@ class LinSolve(Module):
                             "This case can simply be solved by running two rhs (one for the real part and "
                             "one for the imaginary.")
 
-        # Determine the solver we want to use
+        # Determine the solver we want to use; choose again if the class of the matrix has changed
+        mat_class = (self.issparse, self.iscomplex, self.ishermitian)
+        if mat_class != self._mat_class:
+            self._mat_class = mat_class
+            self.solver = self._user_solver
         if self.solver is None:
             self.solver = auto_determine_solver(mat, ishermitian=self.ishermitian)
         if not isinstance(self.solver, LDAWrapper) and self.use_lda_solver:
